@@ -63,6 +63,7 @@ struct Params
   int se[3] = {0, 0, 0};         // side-effect behaviour: 0 log, 1 log+throw, 2 log+nested call, 3 log+nested call v(arg-1) if arg>0, 4 write through int&, 5 destroy object nest_obj
   int nest_obj = -1;     // nested call target (object id), function 'v'
   int nest_arg = 0;
+  int dop = -1;          // deferred operation a side effect in mode 6 carries out (once)
   unsigned long lo = 1, hi = 1;  // RT_TIMES
   trompeloeil::sequence* seq[2] = {nullptr, nullptr};
   int slot = 0;          // reference-return slot
@@ -85,6 +86,7 @@ namespace H
   int sidx(std::string const& s); // index of a string argument in the string domain
   void nested(int obj, int arg);  // implemented by the driver
   void destroy(int obj);          // implemented by the driver: destroys that object now (from inside a side effect)
+  void deferred(int k);           // implemented by the driver: carries out the deferred operation k (release / create an expectation)
 
   inline bool with(Params const& p, int idx, int arg)
   {
@@ -101,6 +103,7 @@ namespace H
     if (p.se[idx] == 1) throw SeThrow{p.id, idx};
     if (p.se[idx] == 2) nested(p.nest_obj, p.nest_arg);
     if (p.se[idx] == 3 && arg > 0) nested(p.nest_obj, arg - 1);   // conditional recursion: terminates because the argument decreases
+    if (p.se[idx] == 6) deferred(p.dop);                // re-entrancy: an expectation is released or created from inside the side effect
     if (p.se[idx] == 5) destroy(p.nest_obj);            // the mock object whose function is executing (or its moved-from husk) dies now
   }
   inline void se(Params const& p, int idx, std::string const& arg) { se(p, idx, sidx(arg)); }
